@@ -1556,6 +1556,15 @@ fn hierarchy_size(files: &[(String, Result<grammar::Module, String>)]) -> usize 
         .min(1 << 24)
 }
 
+/// `<file_name>:<line>:<column>` in an error text.
+fn reported_position(e: &str, file_name: &str) -> Option<(usize, usize)> {
+    let at = e.find(&format!("{file_name}:"))? + file_name.len() + 1;
+    let mut parts = e[at..].splitn(3, |c: char| !c.is_ascii_digit());
+    let l = parts.next()?.parse().ok()?;
+    let c = parts.next()?.parse().ok()?;
+    Some((l, c))
+}
+
 fn parse_all(world: &World) -> Vec<(String, Result<grammar::Module, String>)> {
     world
         .module_files()
@@ -1671,15 +1680,38 @@ pub fn evaluate(case: &Case, results: &[Vec<RunResult>], report: &mut CaseReport
                         else {
                             continue;
                         };
-                        let Some((line, col, message)) = crate::model::parse_error_position(&text)
+                        let Some((line, col, message, at_token)) =
+                            crate::model::parse_error_span(&text)
                         else {
                             continue;
                         };
                         if message.len() >= 12 && e.contains(&message) {
                             is_parse_error = true;
                         }
-                        if e.contains(&format!("{file_name}:{line}:{col}")) {
-                            positioned = true;
+                        if at_token {
+                            // The parser points at a token: that is the position.
+                            if e.contains(&format!("{file_name}:{line}:{col}")) {
+                                positioned = true;
+                            }
+                        } else if let Some((l, _c)) = reported_position(e, &file_name) {
+                            // The input ends too early: there is no token to point at, and any
+                            // position is fine as long as the error lies there or beyond —
+                            // the lines up to and including the reported one must not already
+                            // be a complete, valid module.
+                            let prefix: String =
+                                text.lines().take(l).collect::<Vec<_>>().join("\n");
+                            let nlines = text.lines().count().max(1);
+                            if l >= 1 && l <= nlines + 1 {
+                                if l < nlines && crate::model::safe_parse(&prefix).is_ok() {
+                                    return Verdict::violation(
+                                        "parse-error-position-too-early",
+                                        format!(
+                                            "build {bi}: {file_name} is reported to fail at line {l}, but its first {l} line(s) are a valid module on their own and the file has {nlines}: {e}"
+                                        ),
+                                    );
+                                }
+                                positioned = true;
+                            }
                         }
                     }
                     if is_parse_error {
